@@ -82,6 +82,8 @@ def obs_boxes(*names):
 
 
 def obs_samples(case, block):
+    """what C01 talks about: per track the resolved sample bytes and sync table, and whether the
+    sample ranges tile the mdat payload; NOT the offsets themselves"""
     if case.kind != "mux":
         return block
     buf = sink_of(block)
@@ -89,12 +91,104 @@ def obs_samples(case, block):
     if r is None:
         return ("unparsable", hashlib.sha1(buf).hexdigest())
     out = []
+    allr = []
     for trak in r.find(b"moov", b"trak"):
         rs = mp4.resolve_samples(buf, trak)
         t = mp4.track_tables(trak)
-        out.append((rs, [buf[o:o + s].hex() for o, s in (rs or [])], t["stss"]))
-    mdat = [(k.off, len(k.payload)) for k in r.kids if k.typ == b"mdat"]
-    return (classes_of(block), out, mdat)
+        allr += rs or []
+        out.append(([buf[o:o + s].hex() for o, s in (rs or [])], t["stss"]))
+    mdat = [(k.off + 8, k.off + 8 + len(k.payload)) for k in r.kids if k.typ == b"mdat"]
+    tiles = None
+    if len(mdat) == 1:
+        cur = mdat[0][0]
+        tiles = True
+        for o, sz in sorted(allr):
+            if o != cur:
+                tiles = False
+                break
+            cur += sz
+        tiles = tiles and cur == mdat[0][1]
+    elif not mdat:
+        tiles = (allr == [])
+    return (classes_of(block), out, tiles)
+
+
+def obs_order(case, block):
+    """what C15 talks about: the storage order of all samples (track, index) by offset"""
+    if case.kind != "mux":
+        return block
+    buf = sink_of(block)
+    r = mp4.root(buf)
+    if r is None:
+        return ("unparsable", hashlib.sha1(buf).hexdigest())
+    allr = []
+    for ti, trak in enumerate(r.find(b"moov", b"trak")):
+        for si, (o, sz) in enumerate(mp4.resolve_samples(buf, trak) or []):
+            allr.append((o, ti, si))
+    return (classes_of(block), [(t, i) for _, t, i in sorted(allr)])
+
+
+def obs_timing(case, block):
+    """what C03 talks about: stts, ctts, and the duration/timescale fields of mdhd"""
+    if case.kind != "mux":
+        return block
+    r = mp4.root(sink_of(block))
+    if r is None:
+        return ("unparsable", hashlib.sha1(sink_of(block)).hexdigest())
+    out = []
+    for trak in r.find(b"moov", b"trak"):
+        t = mp4.track_tables(trak)
+        out.append((t["stts"], t["ctts"], (t["mdhd"] or "")[24:40]))
+    return (classes_of(block), out)
+
+
+def obs_none(case, block):
+    """differential properties: the verdict comes from the paired runs on the real crate"""
+    return None
+
+
+def frag_view(block, timing):
+    out = []
+    import struct
+    for l in block:
+        w = l.split(" ")
+        if w[0] == "r" and w[1] == "seg" and len(w) > 2 and w[2] != "none":
+            seg = unhx(w[2])
+            r = mp4.root(seg)
+            if r is None:
+                out.append("unparsable")
+                continue
+            trun = r.find(b"moof", b"traf", b"trun")
+            tfdt = r.find(b"moof", b"traf", b"tfdt")
+            mfhd = r.find(b"moof", b"mfhd")
+            mdat = [k for k in r.kids if k.typ == b"mdat"]
+            if not (trun and tfdt and mfhd and mdat):
+                out.append("missing")
+                continue
+            p = trun[0].payload
+            n = struct.unpack(">I", p[4:8])[0]
+            ents = [struct.unpack(">IIII", p[12 + 16 * i:28 + 16 * i]) for i in range(min(n, (len(p) - 12) // 16))]
+            if timing:
+                out.append((tfdt[0].payload.hex(), [(e[0], e[3], e[2]) for e in ents]))
+            else:
+                data, cur = [], 0
+                for e in ents:
+                    data.append(mdat[0].payload[cur:cur + e[1]].hex())
+                    cur += e[1]
+                out.append((mfhd[0].payload.hex(), data, [(e[2] >> 16) & 1 for e in ents]))
+        elif w[0] == "r" and w[1] == "bytes":
+            out.append(l if timing else "init")
+        else:
+            out.append(l if not timing or w[:2] != ["r", "num"] else l)
+    return out
+
+
+def obs_frag_samples(case, block):
+    return frag_view(block, False) if case.kind == "frag" else block
+
+
+def obs_frag_timing(case, block):
+    return frag_view(block, True) if case.kind == "frag" else block
 
 
 def obs_skeleton(case, block):
@@ -124,6 +218,18 @@ def obs_classes(case, block):
 
 def obs_results(case, block):
     return [l for l in block if not l.startswith("sink ")] + [len(sink_of(block))]
+
+
+def obs_decisions(case, block):
+    """what C04 talks about: which calls succeed, and which error each failing call returns"""
+    out = []
+    for l in block:
+        w = l.split(" ")
+        if w[0] == "r":
+            out.append(" ".join(w[1:3]) if w[1] == "err" else ("ok" if w[1] in ("ok", "stats") else w[1]))
+        elif w[0] == "build":
+            out.append(l)
+    return out
 
 
 def obs_panic(case, block):
@@ -584,16 +690,13 @@ KNOWN_CLASSES = {}
 
 
 PROPS = {
-    "C01": dict(fams=[("fam_mux_av", 150, 3000), ("fam_mux_clean", 100, 2000), ("fam_mux_basic", 50, 1000)],
-                checks=["C01"], obs=obs_samples, components=["K7", "K1", "K2"], nontrivial=nt_finished,
+    "C01": dict(fams=[("fam_mux_av", 150, 3000), ("fam_mux_clean", 100, 2000), ("fam_mux_basic", 50, 1000), ("fam_adts_lengths", 60, 2000), ("fam_reject_matrix", 60, 1500)], checks=["C01"], obs=obs_samples, components=["K7", "K1", "K2"], nontrivial=nt_finished,
                 rule="seeded A/V and video-only histories (B-frame GOPs, audio bursts, all codecs/layouts/metadata); non-trivial = a successful finish with >= 2 accepted frames; distinct by case text"),
     "C02": dict(fams=[("fam_mux_basic", 120, 2000), ("fam_mux_av", 80, 1500), ("fam_frag", 100, 2000)],
                 checks=["C02"], obs=obs_skeleton, components=["K7", "K8"], nontrivial=lambda c, b: True),
-    "C03": dict(fams=[("fam_mux_av", 150, 3000), ("fam_mux_clean", 100, 2000)],
-                checks=["C03"], obs=obs_boxes(b"stts", b"ctts", b"mdhd"), components=["K7"], nontrivial=nt_finished),
-    "C05": dict(fams=[("fam_mux_basic", 150, 3000), ("fam_contract", 150, 3000), ("fam_frag", 60, 1000)],
-                checks=[], obs=obs_all, extra=extra_C05, components=["K7", "K8"], nontrivial=nt_has_err),
-    "C14": dict(fams=[("fam_fn_annexb", 400, 20000)], checks=["C14"], obs=obs_all, components=["K1", "K2"],
+    "C03": dict(fams=[("fam_mux_av", 150, 3000), ("fam_mux_clean", 100, 2000), ("fam_reject_matrix", 200, 4000)], checks=["C03"], obs=obs_timing, components=["K7"], nontrivial=nt_finished),
+    "C05": dict(fams=[("fam_reject_matrix", 300, 6000), ("fam_mux_basic", 100, 3000), ("fam_contract", 100, 3000), ("fam_frag", 60, 1000)], checks=[], obs=obs_none, extra=extra_C05, components=["K7", "K8"], nontrivial=nt_has_err),
+    "C14": dict(fams=[("fam_fn_annexb", 400, 20000), ("fam_adts_lengths", 80, 3000)], checks=["C14"], obs=obs_all, components=["K1", "K2"],
                 nontrivial=lambda c, b: True),
 }
 
@@ -975,31 +1078,31 @@ KNOWN_CLASSES = {
 }
 
 PROPS.update({
-    "C04": dict(fams=[("fam_contract", 300, 20000), ("fam_mux_basic", 150, 3000)], checks=["C04"], obs=obs_results,
+    "C04": dict(fams=[("fam_contract", 300, 20000), ("fam_mux_basic", 150, 3000), ("fam_reject_matrix", 200, 4000), ("fam_adts_lengths", 60, 1500)], checks=["C04"], obs=obs_decisions,
                 components=["K7", "K2", "K3", "K4", "K5", "K6"], nontrivial=nt_has_err),
-    "C06": dict(fams=[("fam_mux_basic", 200, 4000), ("fam_mux_av", 80, 2000), ("fam_sink", 60, 1000)], checks=["C06"],
+    "C06": dict(fams=[("fam_mux_basic", 200, 4000), ("fam_mux_av", 80, 2000), ("fam_sink", 60, 1000), ("fam_reject_matrix", 100, 2000)], checks=["C06"],
                 obs=obs_results, components=["K7"], nontrivial=lambda c, b: first_ok_fin(c, b) is not None),
     "C07": dict(fams=[("fam_mux_clean", 200, 4000), ("fam_mux_av", 100, 2000)], checks=["C07"],
                 obs=obs_boxes(b"stsd"), components=["K4", "K5", "K6", "K7", "K8"], nontrivial=nt_finished),
     "C08": dict(fams=[("fam_mux_av", 80, 1500), ("fam_mux_clean", 80, 1500), ("fam_mux_basic", 40, 800)], checks=[],
-                extra=extra_C08, obs=obs_all, components=["K7"], nontrivial=nt_finished),
+                extra=extra_C08, obs=obs_none, components=["K7"], nontrivial=nt_finished),
     "C09": dict(fams=[("fam_mux_av", 200, 4000)], checks=["C09"], obs=obs_boxes(b"stts", b"ctts", b"elst"),
                 components=["K7"], nontrivial=nt_finished),
-    "C10": dict(fams=[("fam_frag", 300, 20000)], checks=["C10"], obs=obs_all, components=["K8"],
+    "C10": dict(fams=[("fam_frag", 300, 20000)], checks=["C10"], obs=obs_frag_samples, components=["K8"],
                 nontrivial=lambda c, b: any(l.startswith("r seg ") and not l.endswith("none") for l in b)),
-    "C11": dict(fams=[("fam_frag", 300, 20000)], checks=["C11"], obs=obs_all, components=["K8"],
+    "C11": dict(fams=[("fam_frag", 300, 20000)], checks=["C11"], obs=obs_frag_timing, components=["K8"],
                 nontrivial=lambda c, b: sum(1 for l in b if l.startswith("r seg ") and not l.endswith("none")) >= 2),
     "C12": dict(fams=[("fam_fn_annexb", 300, 20000), ("fam_fn_codec", 400, 20000), ("fam_contract", 200, 5000),
                       ("fam_mux_basic", 150, 3000), ("fam_frag", 100, 3000), ("fam_sink", 50, 500)],
                 checks=[], obs=obs_panic, components=["K1", "K2", "K3", "K4", "K5", "K6", "K7", "K8", "K10"],
                 nontrivial=lambda c, b: True),
-    "C13": dict(fams=[("fam_sink", 150, 1500), ("fam_sink_points", 120, 3000)], checks=[], extra=extra_C13, obs=obs_all,
+    "C13": dict(fams=[("fam_sink", 150, 1500), ("fam_sink_points", 120, 3000)], checks=[], extra=extra_C13, obs=obs_none,
                 components=["K10"], nontrivial=lambda c, b: any(l.startswith("r err Io") for l in b)),
-    "C15": dict(fams=[("fam_mux_av", 250, 5000)], checks=["C15"], obs=obs_samples, components=["K7"], nontrivial=nt_finished),
+    "C15": dict(fams=[("fam_mux_av", 250, 5000)], checks=["C15"], obs=obs_order, components=["K7"], nontrivial=nt_finished),
     "C16": dict(fams=[("fam_mux_clean", 150, 3000), ("fam_mux_av", 100, 2000)], checks=["C16"], obs=obs_all,
                 components=["K7", "K8"], nontrivial=nt_finished),
     "C17": dict(fams=[("fam_mux_basic", 120, 1500), ("fam_mux_av", 60, 800), ("fam_frag", 60, 800)], checks=[], extra=extra_C17,
-                obs=obs_all, components=["K7", "K8"], nontrivial=lambda c, b: True, no_shrink=True),
+                obs=obs_none, components=["K7", "K8"], nontrivial=lambda c, b: True, no_shrink=True),
     "C18": dict(fams=[("fam_mux_basic", 200, 4000), ("fam_mux_clean", 100, 2000)], checks=["C18"], extra=extra_C18,
                 obs=obs_boxes(b"udta", b"mdhd"), components=["K7"], nontrivial=nt_finished),
     "C19": dict(fams=[("fam_mux_basic", 150, 3000), ("fam_mux_av", 100, 2000), ("fam_frag", 80, 1500)], checks=["C19"],
